@@ -438,6 +438,7 @@ type tableGen struct {
 	ipMode  int // 0 mostly LAN, 1 mixed, 2 mostly public
 	victims []int
 	length  int
+	focus   int // pool index of a node that gets bursts of track requests (failures with a success in between); 0 = none
 }
 
 var tableSeqs = []int{0, 1, 1, 2, 3, 5}
@@ -536,6 +537,38 @@ func (g *tableGen) next(step int, s portalwire.VerifSnapshot) (tableOp, bool) {
 			n.port = uint16(r.Pick(tablePorts))
 		}
 		return n, true
+	}
+	if g.focus > 0 {
+		// the consecutive-failure scenario: keep one node in a bucket with >= 4 entries and report lookups against it,
+		// mostly failures with an occasional success in between
+		var fe *portalwire.VerifEntry
+		blen := 0
+		for _, b := range s.Buckets {
+			for i := range b.Entries {
+				if h.index[b.Entries[i].ID] == g.focus {
+					fe = &b.Entries[i]
+					blen = len(b.Entries)
+				}
+			}
+		}
+		switch {
+		case fe == nil && r.Intn(3) == 0:
+			g.c.Count("focus_add")
+			return tableOp{kind: 'F', n: tblNode{idx: g.focus, seq: 1, hasIP: true, ip: [4]byte{10, 0, 1, 77}, port: 30303}, flag: r.Intn(2) == 0}, true
+		case fe != nil && blen >= 4 && fe.IP.IsValid() && r.Intn(100) < 35:
+			n := tblNode{idx: g.focus, seq: fe.Seq, hasIP: true, ip: fe.IP.As4(), port: uint16(fe.Port)}
+			ok := r.Intn(5) == 0
+			if ok {
+				g.c.Count("focus_track_success")
+			} else {
+				g.c.Count("focus_track_failure")
+			}
+			var ns []tblNode
+			if r.Intn(3) == 0 {
+				ns = append(ns, g.node(g.anyIdx()))
+			}
+			return tableOp{kind: 'T', n: n, flag: ok, nodes: ns, picks: []int{pick()}}, true
+		}
 	}
 	k := r.Intn(100)
 	if !s.InitDone && (step == 3+g.length%7 || k < 2) {
@@ -706,6 +739,10 @@ func newTableHist(c *Ctx) (*tableHist, *tableGen) {
 	}
 	for i := 0; i < 3; i++ {
 		g.victims = append(g.victims, 1+r.Intn(len(h.pool)-1))
+	}
+	if r.Intn(2) == 0 && len(h.pool) > 2 {
+		g.focus = 1 + r.Intn(2) // the first ids of the pool are in the most populated distance class
+		c.Count("focus_history")
 	}
 	c.Count(fmt.Sprintf("pool_shape_%d", shape))
 	c.Count(fmt.Sprintf("ip_mode_%d", g.ipMode))
